@@ -131,39 +131,38 @@ Theorem C10_configuration_independent : forall dispatch pool1 pool2 udp1 udp2 ht
 Proof. exact InvokeProofs.configuration_independent. Qed.
 
 (* ---- schedules of the handle-timeout race (goroutine running Invoke / deadline / handler): all label sequences ---- *)
+(* two-way: exactly one reply - Invoke's result, the queue-timeout answer of an Invoke entered after the deadline, or
+   the timeout error - with the request's identity *)
 Theorem C10_schedules_twoway : forall dispatch r queued ls s,
   hrun_labels r (inv_reply dispatch r queued) hinit ls = Some s -> oneway r = false ->
-  forall l, s_written s = Some l ->
-    exists x, l = [x] /\
-              ((x = inv_reply dispatch r queued /\ s_returned s = true) \/ (x = handle_timeout_reply r /\ s_fired s = true)) /\
+  forall w, s_written s = Some w ->
+    exists x, w = [x] /\
+              ((x = inv_reply dispatch r queued /\ s_returned s = true /\ s_late s = false) \/
+               (x = late_reply r /\ s_returned s = true /\ s_fired s = true) \/
+               (x = handle_timeout_reply r /\ s_fired s = true)) /\
               p_id x = q_id r /\ p_ver x = q_ver r /\ p_ptype x = q_ptype r.
 Proof. exact InvokeProofs.served_schedules_twoway. Qed.
+(* one-way: never answered, in any schedule (also when the handler wakes before Invoke has decoded the request) *)
+Theorem C10_schedules_oneway : forall r p ls s, hrun_labels r p hinit ls = Some s -> oneway r = true ->
+  forall w, s_written s = Some w -> w = [].
+Proof. exact InvokeProofs.schedules_oneway. Qed.
 Theorem C10_schedules_write_once : forall r p ls s s' w,
   hrun_labels r p s ls = Some s' -> s_written s = Some w -> s_written s' = Some w.
 Proof. exact InvokeProofs.schedules_write_once. Qed.
 Theorem C10_schedules_at_most_one : forall r p ls s, hrun_labels r p hinit ls = Some s ->
-  forall l, s_written s = Some l -> (length l <= 1)%nat.
+  forall w, s_written s = Some w -> (length w <= 1)%nat.
 Proof. exact InvokeProofs.schedules_at_most_one. Qed.
 Theorem C10_schedules_progress : forall r p ls s, hrun_labels r p hinit ls = Some s ->
   exists more s', hrun_labels r p s more = Some s' /\ s_written s' <> None.
 Proof. exact InvokeProofs.schedules_progress. Qed.
+(* an Invoke that does not dispatch because it was entered late: only after the deadline had passed *)
+Theorem C10_schedules_late : forall r p ls s, hrun_labels r p hinit ls = Some s -> s_late s = true ->
+  s_fired s = true /\ s_started s = true.
+Proof. exact InvokeProofs.schedules_late. Qed.
 Theorem C10_function_is_a_schedule : forall dispatch cfg r queued, 0 < c_ht cfg ->
-  exists ls s, hrun_labels r (inv_reply dispatch r queued) hinit ls = Some s /\ started_before_write ls /\
+  exists ls s, hrun_labels r (inv_reply dispatch r queued) hinit ls = Some s /\ s_late s = false /\
                s_written s = Some (map snd (fst (server_step dispatch cfg r queued))).
 Proof. exact InvokeProofs.function_is_a_schedule. Qed.
-(* one-way under a handle timeout. Full statement: no schedule answers it. False of the model: a schedule in which
-   the deadline passes before the goroutine running Invoke has decoded the request (residual window of the repair;
-   needs the goroutine not to be scheduled for a whole handle timeout). Proved part: every schedule in which the
-   request was decoded before the handler looks at the packet type. *)
-Definition C10_schedules_oneway_statement : Prop := InvokeProofs.schedules_oneway_statement.
-Theorem C10_schedules_oneway_refuted :
-  exists r p ls s, hrun_labels r p hinit ls = Some s /\ q_ptype r = c_TARSONEWAY /\
-                   s_written s = Some [handle_timeout_reply r].
-Proof. exact InvokeProofs.schedules_oneway_refuted. Qed.
-Theorem C10_schedules_oneway_partial : forall dispatch r queued ls s,
-  hrun_labels r (inv_reply dispatch r queued) hinit ls = Some s -> oneway r = true ->
-  started_before_write ls -> forall l, s_written s = Some l -> l = [].
-Proof. exact InvokeProofs.served_schedules_oneway. Qed.
 
 (* ---- pipelining on one connection: any interleaving of the handlers' writes ---- *)
 Theorem C10_pipelining : forall dispatch cfg reqs out,
@@ -206,8 +205,8 @@ Print Assumptions C10_schedules_write_once.
 Print Assumptions C10_schedules_at_most_one.
 Print Assumptions C10_schedules_progress.
 Print Assumptions C10_function_is_a_schedule.
-Print Assumptions C10_schedules_oneway_refuted.
-Print Assumptions C10_schedules_oneway_partial.
+Print Assumptions C10_schedules_oneway.
+Print Assumptions C10_schedules_late.
 Print Assumptions C10_pipelining.
 Print Assumptions C10_session_identity.
 Print Assumptions C10_tcp_segmentation.
